@@ -82,6 +82,9 @@ NATIVE = [
     ("Option<&[u8]>", [("opt", ("vec", "nat8"))], {}, "borrowed"),
     ("(&[u8], u8)", [("vec", "nat8"), "nat8"], {}, "borrowed"),
     ("R3 { data: Option<&[u8]>, n: u8 }", [rec(("data", ("opt", ("vec", "nat8"))), ("n", "nat8"))], {}, "borrowed"),
+    ("Duration", [rec(("secs", "nat64"), ("nanos", "nat32"))], {}, "duration"),
+    ("(u8, String, bool)", [rec((0, "nat8"), (1, "text"), (2, "bool"))], {}, None),
+    ("HashMap<u8, u8>", [("vec", rec((0, "nat8"), (1, "nat8")))], {}, "map"),
 ]
 
 
@@ -191,7 +194,7 @@ def _res(t, env):
     return t
 
 
-def native_shape_issue(t, e, env, map_here=False, depth=0):
+def native_shape_issue(t, e, env, map_here=False, depth=0, serde_std=False):
     """KNOWN FINDINGS (known_findings.txt, DESIGN 0.4): where the Rust type is a tuple / tuple struct / map entry, the native
     path demands more of the WIRE record than the spec's record rule does.  Returns "map" (deserialize_map: the entry record
     must have exactly the fields 0 and 1), "tuple" (deserialize_seq: the wire record must itself be a tuple, ids 0..m-1) or
@@ -203,10 +206,10 @@ def native_shape_issue(t, e, env, map_here=False, depth=0):
         return None
     if e[0] == "opt":
         if not isinstance(t, str) and t[0] == "opt":
-            return native_shape_issue(t[1], e[1], env, False, depth + 1)
+            return native_shape_issue(t[1], e[1], env, False, depth + 1, serde_std)
         if t in ("null", "reserved"):
             return None
-        return native_shape_issue(t, e[1], env, False, depth + 1)
+        return native_shape_issue(t, e[1], env, False, depth + 1, serde_std)
     if isinstance(t, str) or t[0] != e[0]:
         return None
     if e[0] == "vec":
@@ -215,6 +218,8 @@ def native_shape_issue(t, e, env, map_here=False, depth=0):
             return "map"     # decided on the element TYPE before any element is read: also for an empty vector
         return native_shape_issue(t[1], e[1], env, False, depth + 1)
     wt = dict(t[1])
+    if e[0] == "record" and serde_std and not set(wt) <= {i for i, _ in e[1]}:
+        return "serde_std"
     if e[0] == "record":
         n = len(e[1])
         if n >= 1 and [i for i, _ in e[1]] == list(range(n)) and [i for i, _ in t[1]] != list(range(len(t[1]))):
@@ -228,6 +233,7 @@ def native_shape_issue(t, e, env, map_here=False, depth=0):
 
 
 KNOWN = {
+    "serde_std": "known::a wire record with a field the Rust type does not have is rejected at std::time::Duration (serde's own Deserialize impl denies unknown fields)",
     "map": "known::a map entry record with other fields than 0 and 1 is rejected at a Rust map (de.rs deserialize_map: expect a key-value pair)",
     "tuple": "known::a wire record that is not itself a tuple is rejected at a Rust tuple / tuple struct (de.rs deserialize_seq: is not a tuple type)",
 }
@@ -260,6 +266,11 @@ def run(pid, build_replay):
             want = coerce_args(vals, tys, borrowed(exps) if norm == "borrowed" else exps)
             if want is not FAIL and norm == "map":
                 want = [map_normal_form(want[0])]
+            if want is not FAIL and norm == "duration":
+                # host type: nanoseconds below 10^9 (serde's impl carries the excess into the seconds; overflow is an error)
+                d = dict(want[0])
+                secs, nanos = d[H("secs")] + d[H("nanos")] // 10 ** 9, d[H("nanos")] % 10 ** 9
+                want = FAIL if secs >= 2 ** 64 else [sorted([(H("secs"), secs), (H("nanos"), nanos)])]
             if want is not FAIL and norm == "set":
                 want = [sorted(set(want[0]))]                        # a decoded set re-encodes sorted, duplicates gone
             if want is not FAIL and isinstance(norm, tuple) and norm[0] == "array":
@@ -329,6 +340,8 @@ def run(pid, build_replay):
             try:
                 _, dv = spec_decode(bytes.fromhex(o[3:]), want_types=False)
                 dv = [signed_view(v, t) for v, t in zip(dv, exps)]
+                if norm == "map":
+                    dv = [map_normal_form(dv[0])]                  # a HashMap re-encodes in its own iteration order
                 if dv != want:
                     why = (f"the coerced values {want}", f"{dv}")
             except (SpecDecodeError, Exception) as e:   # noqa: B014
@@ -339,7 +352,7 @@ def run(pid, build_replay):
         if why and want is not FAIL and want is not ANY and o == "err":
             for j, e in enumerate(exps):
                 if j < len(tys):
-                    known = known or native_shape_issue(tys[j], e, env, map_here=(norm == "map"))
+                    known = known or native_shape_issue(tys[j], e, env, map_here=(norm == "map"), serde_std=(norm == "duration"))
         if known:
             nknown += 1
             if known in known_seen:
